@@ -18,7 +18,10 @@
      - one link message being delivered to a controller.
    Outputs are the HCI events the controllers hand to their hosts, in emission order,
    tagged with the controller.  [EError] stands for an exception that escapes the
-   callback (the state is what the code leaves behind at the raise).
+   callback (the state is what the code leaves behind at the raise).  The tree modelled is
+   /repo after the controller fixes of property C03 (a PDU for a controller that is not on
+   the link is dropped, Create Connection checks for an existing connection and ends in Page
+   Timeout when nobody owns the address, Disconnect of an unknown handle is refused).
 
    Abstractions (stated in docs/C06.md): connection parameters, PHYs, RSSI, SCO, CIS,
    encryption, feature exchange, role switch and HCI command-complete events of
@@ -221,6 +224,7 @@ Inductive ev :=
 | EAdvReport (ext rsp : bool) (adv : Z) (data : bytes)
 | EClReq (peer : Z)
 | EClConn (handle peer : Z)
+| EClFail (status peer : Z)                (* Connection Complete with an error status *)
 | EError (what : Z).                       (* exception escapes the callback *)
 
 Inductive label :=
@@ -447,24 +451,29 @@ Definition send_acl (cs : list ctrl) (i : nat) (c : ctrl) (h : Z) (d : bytes) : 
       end
   end.
 
-(* Controller.on_hci_disconnect_command *)
+(* Controller.on_hci_disconnect_command.  LocalLink.send_ll_control_pdu / send_lmp_packet drop
+   the PDU when no controller is found for the peer; the local side is disconnected anyway. *)
 Definition disconnect (cs : list ctrl) (i : nat) (c : ctrl) (h reason : Z) : result :=
-  match by_handle (c_cl c) h with
-  | Some k =>
-      match find_classic cs (k_peer k) with
-      | None => (c, [EStatus 0; EError 4], [])
-      | Some j => (set_cl c (tbl_del (c_cl c) (k_peer k)),
-                   [EStatus 0; EDisc (k_handle k) reason], [(i, j, MLmpDetach (c_public c) reason)])
-      end
-  | None =>
-      match by_handle (c_le c) h with
+  match conn_by_handle c h with
+  | None => (c, [EStatus 2], [])                        (* UNKNOWN_CONNECTION_IDENTIFIER: nothing to disconnect *)
+  | Some _ =>
+      match by_handle (c_cl c) h with
       | Some k =>
-          match find_le cs (k_peer k) with
-          | None => (c, [EStatus 0; EError 4], [])
-          | Some j => (set_le c (tbl_del (c_le c) (k_peer k)),
-                       [EStatus 0; EDisc (k_handle k) reason], [(i, j, MTerm (k_self k) reason)])
+          (set_cl c (tbl_del (c_cl c) (k_peer k)), [EStatus 0; EDisc (k_handle k) reason],
+           match find_classic cs (k_peer k) with
+           | None => []
+           | Some j => [(i, j, MLmpDetach (c_public c) reason)]
+           end)
+      | None =>
+          match by_handle (c_le c) h with
+          | Some k =>
+              (set_le c (tbl_del (c_le c) (k_peer k)), [EStatus 0; EDisc (k_handle k) reason],
+               match find_le cs (k_peer k) with
+               | None => []
+               | Some j => [(i, j, MTerm (k_self k) reason)]
+               end)
+          | None => (c, [EStatus 0], [])
           end
-      | None => (c, [EStatus 0], [])
       end
   end.
 
@@ -473,12 +482,16 @@ Definition cl_connect (cs : list ctrl) (i : nat) (c : ctrl) (peer : Z) : result 
   match c_pending c with
   | Some _ => (c, [EStatus 58], [])                     (* CONTROLLER_BUSY *)
   | None =>
-      let c1 := set_cl c (tbl_set (c_cl c) (mkConn peer (c_public c) 0 true)) in
-      match find_classic cs peer with
-      | None => (c1, [EStatus 0; EError 4], [])
-      | Some j => (set_lmp c1 (lmp_set (c_lmp c) peer false), [EStatus 0],
-                   [(i, j, MLmpConnReq (c_public c))])
-      end
+      if orb (match tbl_get (c_cl c) peer with Some k => negb (k_handle k =? 0) | None => false end)
+             (match lmp_get (c_lmp c) peer with Some false => true | _ => false end)
+      then (c, [EStatus 11], [])                        (* CONNECTION_ALREADY_EXISTS *)
+      else
+        let t1 := tbl_set (c_cl c) (mkConn peer (c_public c) 0 true) in
+        match find_classic cs peer with
+        | None => (set_cl c (tbl_del t1 peer), [EStatus 0; EClFail 4 peer], [])   (* PAGE_TIMEOUT *)
+        | Some j => (set_lmp (set_cl c t1) (lmp_set (c_lmp c) peer false), [EStatus 0],
+                     [(i, j, MLmpConnReq (c_public c))])
+        end
   end.
 
 (* Controller.on_hci_accept_connection_request_command, role = PERIPHERAL *)
@@ -486,12 +499,12 @@ Definition cl_accept (cs : list ctrl) (i : nat) (c : ctrl) (peer : Z) : result :
   match tbl_get (c_cl c) peer with
   | None => (c, [EStatus 2], [])                        (* UNKNOWN_CONNECTION_IDENTIFIER *)
   | Some _ =>
-      match find_classic cs peer with
-      | None => (c, [EStatus 0; EError 4], [])
-      | Some j =>
-          let '(c', evs) := classic_complete c peer in
-          (c', EStatus 0 :: evs, [(i, j, MLmpAccepted (c_public c))])
-      end
+      let '(c', evs) := classic_complete c peer in
+      (c', EStatus 0 :: evs,
+       match find_classic cs peer with
+       | None => []
+       | Some j => [(i, j, MLmpAccepted (c_public c))]
+       end)
   end.
 
 Definition local (cs : list ctrl) (n i : nat) (c : ctrl) (l : label) : result :=
